@@ -117,9 +117,9 @@ CLAIMS = {
         "DESIGN.md §4 C19",
     ),
     "C13": (
-        "tag-table agreement (Python type classes vs. both dispatch chains of dynamic.h.j2); text-level transfer sequences of the run-time handlers compared with the canonical grammar; composition rule (no byte-padded private buffers joined by Insert); enum width formula",
+        "tag-table agreement (Python type classes vs. both dispatch chains of dynamic.h.j2); transfer sequences of the run-time handlers extracted from the typed clang AST of the template's abstract instantiation (text-level fallback) compared with the canonical grammar; JSON value categories from clang types; composition rule (no byte-padded private buffers joined by Insert); enum width formula",
         "Narrow: the type tags the Python type classes write into reflection equal the tags both dispatch chains of the run-time codec test (and the fall-through throws); each decode handler takes the buffer by reference and performs the canonical transfer sequence of its constructor (widths, counts, prefix/flag, order); encode handlers must compose through the shared bit cursor; the enum width mirrors Enum.get_packed_size; struct handlers iterate the reflected field vector in order. Value-level behaviour (sign arithmetic, enum naming, JSON, LoadBinarySchema's reconstruction) is not decided.",
-        "Trusted: text-level reading of the C++ in the template (the unit cannot be parsed by clang without rendering reflection.h). KNOWN FINDING D14 (4 sites): encode handlers concatenate byte-padded private buffers.",
+        "Trusted: the abstract instantiation (each {{expr}} = 0) and the stand-in reflection.h; LoadBinarySchema and the enum width formula are read at text level. KNOWN FINDING D14 (4 sites): encode handlers concatenate byte-padded private buffers.",
         "DESIGN.md §4 C13",
     ),
 }
